@@ -357,6 +357,9 @@ const SITE_PREVIOUS: &str = "CausalExtensions.previous is serialised in HashSet 
 
 /// Which part of the header makes two encodings of equal header values differ.
 fn attribute<E: RelayExt>(a: &[u8], b: &[u8]) -> String {
+    if a == b {
+        return "although the encoded bytes are identical".to_string();
+    }
     if E::NODE {
         if let (Ok(x), Ok(y)) = (decode_cbor::<Header<MirrorExt>, _>(a), decode_cbor::<Header<MirrorExt>, _>(b)) {
             let core_eq = x.version == y.version && x.verifying_key == y.verifying_key && x.payload_size == y.payload_size && x.payload_hash == y.payload_hash && x.seq_num == y.seq_num && x.backlink == y.backlink;
@@ -400,7 +403,26 @@ struct Signed<E> {
 /// The four per-hop clauses for one decoded value.
 fn check_decoded<E: RelayExt>(rep: &mut ExecReport, op: usize, hop: &str, a: &Signed<E>, from_bytes: &[u8], h: &Header<E>) {
     if *h != a.header {
-        rep.find(op, "decode-not-equal", format!("{hop}: decoded header differs from the header A built"), format!("{h:?} vs {:?}", a.header));
+        let (x, y) = (h, &a.header);
+        let mut fields: Vec<&str> = vec![];
+        let mut values: Vec<String> = vec![];
+        macro_rules! cmp {
+            ($f:ident) => {
+                if x.$f != y.$f {
+                    fields.push(stringify!($f));
+                    values.push(format!("{}: decoded {:?}, built {:?}", stringify!($f), x.$f, y.$f));
+                }
+            };
+        }
+        cmp!(version);
+        cmp!(verifying_key);
+        cmp!(signature);
+        cmp!(payload_size);
+        cmp!(payload_hash);
+        cmp!(seq_num);
+        cmp!(backlink);
+        cmp!(extensions);
+        rep.find(op, "decode-not-equal", format!("header field(s) [{}] decode to another value", fields.join(", ")), format!("{hop}: {}", values.join("; ")));
     }
     let re = h.to_bytes();
     if re != from_bytes {
@@ -420,7 +442,7 @@ fn decode_header<E: RelayExt>(rep: &mut ExecReport, op: usize, hop: &str, bytes:
     match decode_cbor::<Header<E>, _>(bytes) {
         Ok(h) => Some(h),
         Err(e) => {
-            rep.find(op, "decode-fails", format!("{hop}: header bytes produced by the encoder are rejected"), format!("{e}"));
+            rep.find(op, "decode-fails", "header bytes produced by the serialiser are rejected by the deserialiser".to_string(), format!("{hop}: {e}"));
             None
         }
     }
@@ -662,8 +684,8 @@ impl Property for C02Prop {
     }
     fn budget(&self, tier: Tier) -> Budget {
         match tier {
-            Tier::Quick => Budget { runs: 8_000, wall_cap_s: 35 },
-            Tier::Thorough => Budget { runs: 90_000, wall_cap_s: 330 },
+            Tier::Quick => Budget { runs: 6_000, wall_cap_s: 32 },
+            Tier::Thorough => Budget { runs: 60_000, wall_cap_s: 330 },
         }
     }
     fn modes(&self) -> u32 {
